@@ -474,6 +474,26 @@ def t_pub(ctx):
             ctx.run({'kind': 'pubvalid', 'pub': (bytes([pre]) + c[1:]).hex(), 'cls': 'prefix33'})
             ctx.run({'kind': 'pubvalid', 'pub': (bytes([pre]) + u[1:]).hex(), 'cls': 'prefix65'})
         ctx.exhaustive.append('prefix byte 0..255 x lengths {33,65}')
+        # curve points with a tiny coordinate (y = +-1 ... : x^3 + 7 wraps to a tiny residue; x = 1, 2, ...): every encoding
+        Pm = 2 ** 256 - 2 ** 32 - 977
+        w = pow(3, (Pm - 1) // 3, Pm)
+        pts = []
+        for y in range(1, 400):
+            a = (y * y - 7) % Pm
+            r = pow(a, (Pm + 2) // 9, Pm)           # p = 7 (mod 9): a cube root of a cubic residue
+            if pow(r, 3, Pm) == a:
+                pts += [(r * pow(w, k, Pm) % Pm, yy) for k in range(3) for yy in (y, Pm - y)]
+        for x in range(1, 60):
+            a = (x ** 3 + 7) % Pm
+            y = pow(a, (Pm + 1) // 4, Pm)
+            if y * y % Pm == a:
+                pts += [(x, y), (x, Pm - y)]
+        for (x, y) in pts:
+            xb, yb = x.to_bytes(32, 'big'), y.to_bytes(32, 'big')
+            for enc in (bytes([2 + (y & 1)]) + xb, bytes([3 - (y & 1)]) + xb, b'\x04' + xb + yb, bytes([6 + (y & 1)]) + xb + yb, bytes([7 - (y & 1)]) + xb + yb,
+                        b'\x04' + xb + ((y + 1) % Pm).to_bytes(32, 'big')):
+                ctx.run({'kind': 'pubvalid', 'pub': enc.hex(), 'cls': 'tiny-coordinate'})
+        ctx.exhaustive.append('%d curve points with y < 400 or x < 60 in every encoding (compressed both parities, uncompressed, hybrid both parities, off-curve neighbour)' % len(pts))
 
 
 TASKS = [('keys', (t_keys, 5)), ('sign', (t_sign, 4)), ('verify', (t_verify, 5)), ('pubkeys', (t_pub, 2))]
